@@ -63,6 +63,7 @@ class DevEnv(Env):
         self.rec = host_env.rec
 
     def _arr(self, name):
+        name = self.alias.get(name, name)
         ent = self.sim.present.get(name)
         if ent is not None:
             return ent, ent["arr"]
@@ -75,17 +76,20 @@ class DevEnv(Env):
         return None, arr
 
     def aread(self, name, idx):
+        name = self.alias.get(name, name)
         ent, arr = self._arr(name)
         off = arr.flat(idx)
         val = arr.data[off]
         if ent is not None:
             self.sim.dev_reads += 1
             if val is POISON:
+                self.sim.events += 1
                 self.sim.undefined_reads.append(
-                    (name, off, off in ent["written"]))
+                    (name, off, off in ent["written"], self.sim.events))
         return val
 
     def awrite(self, name, idx, val):
+        name = self.alias.get(name, name)
         ent, arr = self._arr(name)
         off = arr.flat(idx)
         if ent is not None:
@@ -99,6 +103,7 @@ class AccSim:
         self.clauses = clauses
         self.present = {}       # name -> {arr, rc, written, mode}
         self.implicit = set()
+        self.events = 0         # order of the recorded anomalies
         self.undefined_reads = []
         self.copied_back = []   # (name, offsets that were never written
         #                          on the device and are POISON, clause)
@@ -162,7 +167,9 @@ class AccSim:
                     never = [off for off, v in enumerate(ent["arr"].data)
                              if v is POISON and off not in ent["written"]]
                     if never:
-                        self.copied_back.append((name, never[:4], mode))
+                        self.events += 1
+                        self.copied_back.append((name, never[:4], mode,
+                                                 self.events))
                     host.data[:] = ent["arr"].data
                 del self.present[name]
 
